@@ -733,9 +733,14 @@ class TaskScenario(ScenarioData):
                 if start_date:
                     self.property[("end", self.scenarioIdx)] = start_date
                 else:
-                    # No start date - use current slot (set by dependency calculation)
+                    # No start date - use current slot (set by dependency calculation), plus the
+                    # offset into it when the dependency bound lies inside the slot
                     slot_idx = self.currentSlotIdx if self.currentSlotIdx is not None else 0
                     date = self.project.idxToDate(slot_idx)
+                    if date is not None and self.slotStartOffset > 0 and slot_idx == self._offsetSlotIdx:
+                        from datetime import timedelta
+
+                        date = date + timedelta(seconds=self.slotStartOffset)
                     self.property[("start", self.scenarioIdx)] = date
                     self.property[("end", self.scenarioIdx)] = date
             else:
